@@ -51,7 +51,7 @@ theorem runsToks_stop (runs : Option Nat) (rest : List Tok) (c : Nat) :
     simp only [runsToks, hruns, List.cons_append, List.nil_append]
     exact ⟨safe_mono utapT (qstop_sym hno _).2 (Nat.zero_le _), by simp [contAt, hno.1, hno.2]⟩
 
-/-- a printed `l<=e` bound starts with a token that starts an expression: neither `<=` nor `#` -/
+/-- a printed expression starts with a token that starts an expression: neither `<=` nor `#` -/
 theorem boundExpr_not_other (l : Expr) (hl : goodE l = true) (r : List Tok) :
     parseBnd (P l ++ r) = boundExpr (P l ++ r) := by
   obtain ⟨hd, tl, hp, hst⟩ := P_head l hl
@@ -78,28 +78,22 @@ theorem parseBnd_print (b : Bnd) (h : b.wf = true) (rest : List Tok) :
   cases k with
   | time =>
     have := pE_print bound h (runsToks runs ++ .rb :: rest) ⟨(hstop 0).2, (hstop 0).1⟩
-    simp (disch := decide) [bndToks, kindToks, hleq, parseBnd, isTok_qs, List.append_assoc, boundAfter, this, hrt]
+    simp (disch := decide) [bndToks, boundToks, hleq, parseBnd, isTok_qs, List.append_assoc, boundAfter, this, hrt]
   | steps =>
     have := pE_print bound h (runsToks runs ++ .rb :: rest) ⟨(hstop 0).2, (hstop 0).1⟩
-    simp (disch := decide) [bndToks, kindToks, hleq, hsteps, parseBnd, isTok_qs, List.append_assoc, boundAfter, this, hrt]
+    simp (disch := decide) [bndToks, boundToks, hleq, hsteps, parseBnd, isTok_qs, List.append_assoc, boundAfter, this, hrt]
   | expr l =>
-    simp only [Bool.and_eq_true, decide_eq_true_eq] at hk
-    obtain ⟨⟨hl, hx⟩, heq⟩ := hk
+    simp only [Bool.and_eq_true] at hk
+    obtain ⟨_, hx⟩ := hk
     -- the text is the text of the one expression `l <= bound`
     have hp := pE_print (.bin leqTok l bound) hx (runsToks runs ++ .rb :: rest) ⟨(hstop 0).2, (hstop 0).1⟩
     have htoks : bndToks P { kind := .expr l, bound := bound, runs := runs } ++ .rb :: rest =
         P (.bin leqTok l bound) ++ (runsToks runs ++ .rb :: rest) := by
-      show (P l ++ lit "leq" ++ P bound ++ runsToks runs) ++ .rb :: rest = _
-      rw [show P (.bin leqTok l bound) = P l ++ lit "leq" ++ P bound from heq]
-      simp only [List.append_assoc]
-    have hne : bndToks P { kind := .expr l, bound := bound, runs := runs } ++ .rb :: rest =
-        P l ++ (lit "leq" ++ P bound ++ runsToks runs ++ .rb :: rest) := by
-      show (P l ++ lit "leq" ++ P bound ++ runsToks runs) ++ .rb :: rest = _
-      simp only [List.append_assoc]
-    rw [hne, boundExpr_not_other l hl, ← hne, htoks]
+      simp only [bndToks, boundToks, List.append_assoc]
+    rw [htoks, boundExpr_not_other (.bin leqTok l bound) hx]
     simp only [boundExpr]
     rw [hp]
-    simp [hrt]
+    simp [hrt, leqTok]
 
 theorem closeEnd_rp : closeEnd [Tok.rp] = true := by decide
 
@@ -173,7 +167,7 @@ theorem smc_roundtrip (q : SQuery) (h : q.wf = true) : parseS (sprint q) = some 
       have hst : QStop [Tok.sym (qid "'}'")] := qstop_sym (nonop_qs _ (by decide) (by decide)) _
       have hpl := parseList_print l hne hg [.sym (qid "'}'")] hst (by intro r h; cases h)
       have hlen := printList_length l hg
-      simp only [bndToks, runsToks, hruns, P, List.append_assoc, List.cons_append, List.nil_append] at hbnd hpl hlen
+      simp only [bndToks, runsToks, hruns, List.append_assoc, List.cons_append, List.nil_append] at hbnd hpl hlen
       simp (disch := decide) only [printS, hsim, hruns, hso, hsc, parseS, isTok_qs, List.append_assoc, List.cons_append, List.nil_append,
         Option.getD_some, beq_self_eq_true, if_true]
       rw [hbnd]
